@@ -22,7 +22,8 @@ CASES = [
     m("Ld built without conj", "C01-A", R + "redfieldtensor.py",
       "Ld[ms, :, :] += numpy.conj(numpy.transpose(Lm[ms,:,:]))",
       "Ld[ms, :, :] += numpy.transpose(Lm[ms,:,:])"),
-    m("Km allocated complex", "C01-A", R + "redfieldtensor.py",
+    # with the conjugated operators formed as Hermitian conjugates (d166200) the identities hold for complex K as well
+    t("Km allocated complex", R + "redfieldtensor.py",
       "Km = numpy.zeros((Nb, Na, Na), dtype=numpy.float64) ",
       "Km = numpy.zeros((Nb, Na, Na), dtype=numpy.complex128) "),
     m("TD tensor: wrong guard", "C01-A", R + "tdredfieldtensor.py",
@@ -62,8 +63,8 @@ CASES = [
       "                                    if not (((ii == jj) and (kk == ll)) \n                                        or ((ii == kk) and (jj == ll))) :\n                                            self.data[ii,jj,kk,ll] = 0",
       "                                    if not (((ii == jj) and (kk == ll))) :\n                                            self.data[ii,jj,kk,ll] = 0"),
     m("TD secular mask zeroes populations", "C01-C", R + "tdredfieldtensor.py",
-      "                            if not (((ii == jj) and (kk == ll)) \n                                or ((ii == kk) and (jj == ll))) :",
-      "                            if not ((ii == kk) and (jj == ll)) :"),
+      "                        if not (((ii == jj) and (kk == ll)) \n                            or ((ii == kk) and (jj == ll))) :",
+      "                        if not ((ii == kk) and (jj == ll)) :"),
     # twins
     t("loopit: commuted product", R + "redfieldtensor.py",
       "RR[a,b,c,d] += (Km[m,a,c]*Ld[m,d,b] ", "RR[a,b,c,d] += (Ld[m,d,b]*Km[m,a,c] ", 2),
@@ -85,7 +86,7 @@ CASES = [
 
 CASES += [
     m("TD-Redfield mask written to the raw storage", "C01-C", R + "tdredfieldtensor.py",
-      "                                    self.data[:,ii,jj,kk,ll] = 0", "                                    self._data[:,ii,jj,kk,ll] = 0"),
+      "                                self.data[:,ii,jj,kk,ll] = 0", "                                self._data[:,ii,jj,kk,ll] = 0"),
     t("mask written through an alias of the managed property", R + "relaxationtensor.py",
       "                if self.data.ndim == 4:\n                    N = self.data.shape[0]\n                    for ii in range(N):\n                        for jj in range(N):\n                            for kk in range(N):\n                                for ll in range(N):\n                                    if not (((ii == jj) and (kk == ll)) \n                                        or ((ii == kk) and (jj == ll))) :\n                                            self.data[ii,jj,kk,ll] = 0",
       "                if self.data.ndim == 4:\n                    N = self.data.shape[0]\n                    dta = self.data\n                    for ii in range(N):\n                        for jj in range(N):\n                            for kk in range(N):\n                                for ll in range(N):\n                                    if not (((ii == jj) and (kk == ll)) \n                                        or ((ii == kk) and (jj == ll))) :\n                                            dta[ii,jj,kk,ll] = 0"),
@@ -110,4 +111,17 @@ CASES += [
 CASES += [
     m("dephasing rates kept as a view of the tensor (the repaired defect)", "C01-C", R + "relaxationtensor.py",
       "            self.secular_GG = numpy.einsum(\"ijij->ij\", self.data).copy()", "            self.secular_GG = numpy.einsum(\"ijij->ij\", self.data)"),
+]
+
+CASES += [
+    {"name": "time-dependent tensor refuses to be secularized in operator form (the repaired defect)", "kind": "mutant", "rule": "C01-E", "edits": [
+        ("quantarhei/qm/liouvillespace/tdredfieldtensor.py", "            # the tensor is needed, as for the time-independent tensor\n            self.convert_2_tensor()\n",
+         "            raise Exception(\"Cannot be secularized in an opeator form\")\n", 1)]},
+    {"name": "data-based secularization looks at the data before converting (the repaired defect)", "kind": "mutant", "rule": "C01-E", "edits": [
+        ("quantarhei/qm/liouvillespace/secular.py", "            if self.as_operators:\n                # the data come into being by conversion from the operators\n                self.convert_2_tensor()\n", "", 1)]},
+]
+
+CASES += [
+    {"name": "cut-off Redfield part added in place to the full-length array (the repaired defect)", "kind": "mutant", "rule": "C01-F", "edits": [
+        ("quantarhei/qm/liouvillespace/tdredfieldfoerster.py", "            Ntr = RT.data.shape[0]\n            self.data = self.data[:Ntr,:,:,:,:] + RT.data\n", "            self.data += RT.data\n", 1)]},
 ]
